@@ -13,16 +13,28 @@ def run(ck):
         if thorough:
             a.append("--thorough")
         jobs.append(dict(exe=asan, args=a, label="fstore%d" % i, timeout=14400))
-    sa.run_jobs(ck, jobs, sets=("cases",))
+    # "garbage collection ... never removes a live session" also while other threads / processes save: owners save an expired and
+    # then a live value under their own id and must load it back, disturbers load the same ids and run gc(); unlink() is delayed
+    tsan = ck.build("tsan", ["fstore_conc"])["fstore_conc"]
+    conc = ck.build("asan", ["fstore_conc"])["fstore_conc"]
+    kc = (20 if thorough else 1) * ck.scale
+    for i in range(6):
+        a = ["--rounds", int(1500 * kc), "--scenarios", 6, "--delay", [300, 50, 800][i % 3], "--seed", sa.subseed(ck, 100 + i), "--dir", os.path.join(ck.rundir, "conc%d" % i)]
+        if i % 3 == 1:
+            a.append("--processes")
+        jobs.append(dict(exe=(tsan if i % 3 == 2 else conc), args=a, label="conc%d" % i, timeout=14400))
+    sa.run_jobs(ck, jobs, sets=("cases", "shapes"))
     ck.assumptions += [
         "a write() of the 16-byte header is atomic with respect to a process kill and, lying inside sector 0, with respect to power loss (as the property states); data-area writes may stop at any byte",
         "sector model: each touched 512-byte sector independently holds its old or its new content; the file length is the larger of the old length and the highest sector that reached the disk",
+        "concurrent part: each owner is the only writer of its session id, so after its save of a live value returns, its own load must return exactly that value; disturbers only load and collect garbage; unlink() is delayed by a link-time shim (20-320 us)",
         "a CRC-32 collision between a torn state and its header would be a genuine acceptance of a mixture (expected once per 2^32 states)",
     ]
     ck.finish("fault_enumeration",
               "for previous file state in {absent, shorter, equal length, longer; one or two generations} x payload sizes {0, 1..40, ~512, ~1024, 2000..6000} x deadlines past/future: the write() sequence of the new save is recorded by a "
               "link-time shim, then every prefix of it, every byte prefix of the data area (all in thorough, <=300 per write in quick), subsets of touched 512-byte sectors (all when <=12 sectors in thorough) and real child-process "
               "crashes after exactly k bytes are each followed by the real load(): result must be 'no session' (file unlinked) or a complete earlier/in-flight payload with a deadline of some save that is not in the past; "
-              "garbage collection is run on directories of live, expired, unreadable and foreign files against a model. non-trivial = distinct (old file, new payload) cases",
+              "garbage collection is run on directories of live, expired, unreadable and foreign files against a model. Concurrent part: 1..3 owner threads (expired save, live save, load) against a gc thread and 0..2 loader "
+              "threads, and against gc/loader processes forked after the storage was created, for plain-mutex, process-shared-mutex and fcntl locking, under ASan and ThreadSanitizer. non-trivial = distinct (old file, new payload) cases",
               "crash_states", "cases", min_evals=20000,
-              required_nonzero=("states_prefix", "states_byte_prefix", "states_sector_subset", "states_real_crash", "loads_returning_a_session", "loads_reporting_no_session", "gc_files_judged"))
+              required_nonzero=("states_prefix", "states_byte_prefix", "states_sector_subset", "states_real_crash", "loads_returning_a_session", "loads_reporting_no_session", "gc_files_judged", "conc_rounds", "conc_gc_runs", "conc_disturber_loads", "unlinks_delayed", "conc_scenarios_processes_fcntl", "conc_scenarios_threads_pshared-mutex"))
